@@ -9,6 +9,8 @@
        Hamming error, short / overlong / cut units) inserted at every position of a base stream; other PIDs; empty PES
    "A" auto-detection of the page (first subtitle-flagged page) and of the PID (first teletext PID of the PMT)
    "H" hexadecimal page numbers (1F vs 25, A0 ...), page FF
+   "D" character-set designation: an M/29 packet before / inside the target page or in another magazine, an X/28
+       packet inside / outside the page, designating the Polish sub-set; rows with all 13 national positions
    "C" character sets: every character-set code x all 13 national-option positions, sets switching between instances,
        colour / size codes, text outside the box, parity errors *)
 EXTENDS Teletext, IOUtils
@@ -41,9 +43,9 @@ RR == <<Dh, Col(6)>> \o Boxed(Word(72, 105) \o <<Col(6)>> \o Word(99, 121))
 RS == <<Col(6)>> \o Boxed(Word(72, 105) \o <<Col(6)>> \o Word(99, 121))
 RN == Boxed([i \in 1..13 |-> Ch(SetToSortSeq(NationalPositions, <)[i])] \o <<Ch(65)>>)
 
-Hdr(mag, pt, pu, sub, serial, cs, own) == [k |-> "hdr", mag |-> mag, pt |-> pt, pu |-> pu, sub |-> sub, serial |-> serial, cs |-> cs, erase |-> FALSE, row |-> 0, cells |-> <<>>, own |-> own]
-Row(mag, row, cells, own) == [k |-> "row", mag |-> mag, pt |-> 0, pu |-> 0, sub |-> FALSE, serial |-> FALSE, cs |-> 0, erase |-> FALSE, row |-> row, cells |-> cells, own |-> own]
-Extra(kind, mag) == [k |-> kind, mag |-> mag, pt |-> 0, pu |-> 0, sub |-> FALSE, serial |-> FALSE, cs |-> 0, erase |-> FALSE, row |-> 20, cells |-> RA, own |-> 0]
+Hdr(mag, pt, pu, sub, serial, cs, own) == [k |-> "hdr", mag |-> mag, pt |-> pt, pu |-> pu, sub |-> sub, serial |-> serial, cs |-> cs, erase |-> FALSE, row |-> 0, cells |-> <<>>, own |-> own, grp |-> 0]
+Row(mag, row, cells, own) == [k |-> "row", mag |-> mag, pt |-> 0, pu |-> 0, sub |-> FALSE, serial |-> FALSE, cs |-> 0, erase |-> FALSE, row |-> row, cells |-> cells, own |-> own, grp |-> 0]
+Extra(kind, mag) == [k |-> kind, mag |-> mag, pt |-> 0, pu |-> 0, sub |-> FALSE, serial |-> FALSE, cs |-> 0, erase |-> FALSE, row |-> 20, cells |-> RA, own |-> 0, grp |-> 0]
 
 \* target page 100 (magazine 1, page 00)
 T(own, serial, cs, rows) == <<Hdr(1, 0, 0, TRUE, serial, cs, own)>> \o [i \in DOMAIN rows |-> Row(1, rows[i][1], rows[i][2], own)]
@@ -121,7 +123,20 @@ TM(mag, own, rows) == <<Hdr(mag, 2, 3, TRUE, TRUE, 0, own)>> \o [i \in DOMAIN ro
 CasesM == UNION {{[st |-> Stream(TM(m, 1, <<<<20, RA>>>>) \o TM((m % 8) + 1, 0, <<<<20, RC>>>>) \o TM(m, 2, <<<<22, RC>>>>) \o TM(m, 3, <<>>), g),
                    op |-> Opt(pg, 0)] : g \in {1, 3}, pg \in {0, m * 100 + 23}} : m \in 1..8}
 
-Cases(fam) == CASE fam = "M" -> CasesM [] fam = "I" -> CasesI [] fam = "S" -> CasesS [] fam = "P" -> CasesP [] fam = "E" -> CasesEOK [] fam = "A" -> CasesA [] fam = "H" -> CasesH [] fam = "C" -> CasesC
+\* D: designation of the character set (own = 99: by construction the designation governs the target page)
+Desig(kind, mag, grp, applies) == [Extra(kind, mag) EXCEPT !.grp = grp, !.own = IF applies THEN 99 ELSE 0]
+TD(own) == T(own, TRUE, 0, <<<<20, RN>>>>)
+CasesD == {[st |-> Stream(us, g), op |-> Opt(100, 0)] : g \in {1, 2},
+             us \in {<<Desig("m29", 1, 1, TRUE)>> \o TD(1) \o TD(2),                      \* M/29 before the page is received
+                      <<Hdr(1, 0, 0, TRUE, TRUE, 0, 1), Desig("m29", 1, 1, TRUE), Row(1, 20, RN, 1)>> \o TD(2),
+                      <<Hdr(1, 0, 0, TRUE, TRUE, 0, 1), Desig("x28", 1, 1, TRUE), Row(1, 20, RN, 1)>> \o TD(2),
+                      <<Hdr(1, 0, 0, TRUE, TRUE, 0, 1), Row(1, 20, RN, 1), Desig("x28", 1, 1, TRUE)>> \o TD(2),
+                      <<Desig("m29", 2, 1, FALSE)>> \o TD(1) \o TD(2),                     \* another magazine's
+                      <<Desig("x28", 1, 1, FALSE)>> \o TD(1) \o TD(2),                     \* X/28 while no page is received
+                      TD(1) \o DSame(TRUE) \o <<Desig("x28", 1, 1, FALSE)>> \o TD(2),      \* X/28 of another page of the magazine
+                      TD(1) \o TD(2)}}
+
+Cases(fam) == CASE fam = "D" -> CasesD [] fam = "M" -> CasesM [] fam = "I" -> CasesI [] fam = "S" -> CasesS [] fam = "P" -> CasesP [] fam = "E" -> CasesEOK [] fam = "A" -> CasesA [] fam = "H" -> CasesH [] fam = "C" -> CasesC
 
 ---------------------------------------------------------------------------
 (* truth by construction: units tagged own = k belong to target instance k *)
@@ -136,15 +151,18 @@ RowsOf(s, pid, k) == LET ps == PidPes(s, pid)
 CsOf(s, pid, k) == LET ps == PidPes(s, pid)
                        all == Flat([i \in DOMAIN ps |-> ps[i].units])
                    IN  (CHOOSE u \in {all[i] : i \in DOMAIN all} : u.k = "hdr" /\ u.own = k).cs
+GrpTruth(s, pid) == LET all == Flat([i \in DOMAIN PidPes(s, pid) |-> PidPes(s, pid)[i].units])
+                        ds == {all[i].grp : i \in {j \in DOMAIN all : all[j].own = 99}}
+                    IN  IF ds = {} THEN 0 ELSE CHOOSE x \in ds : TRUE
 Truth(s, pid) ==
-  LET owns == SetToSortSeq(Owns(s, pid), <)
+  LET owns == SetToSortSeq(Owns(s, pid) \ {99}, <)
       ps == PidPes(s, pid)
       first == MinPts(ps)
       cue(n) == LET k == owns[n]
                     rows == SortRows(RowsOf(s, pid, k))
                 IN  [s |-> (HdrPts(s, pid, k) - first) \div 90,
                      e |-> ((IF n < Len(owns) THEN HdrPts(s, pid, owns[n + 1]) ELSE MaxPts(ps)) - first) \div 90,
-                     lines |-> SelectSeq([j \in DOMAIN rows |-> [runs |-> RowRuns(rows[j].cells, CsOf(s, pid, k)), textonly |-> HasParErr(rows[j].cells)]],
+                     lines |-> SelectSeq([j \in DOMAIN rows |-> [runs |-> RowRuns(rows[j].cells, <<CsOf(s, pid, k), GrpTruth(s, pid)>>), textonly |-> HasParErr(rows[j].cells)]],
                                          LAMBDA ln : ln.runs # <<>>),
                      nrows |-> Len(rows)]
       cues == [n \in DOMAIN owns |-> cue(n)]
